@@ -113,7 +113,7 @@ Proof.
   destruct l as [p r|b| | |]; [discriminate| | | |].
   - destruct dd0; [exact B|]. destruct b0; [exact B|].
     destruct (process_byte cf d0 b) as [d' e]. destruct e; cbn; try exact B.
-    destruct q0; exact B.
+    destruct q0; [destruct (full_fix cf)|]; exact B.
   - destruct sn0 as [|wire r f]; [exact B|]. destruct q0 as [c|]; [|exact B].
     unfold snd_get. rewrite Hf.
     destruct (Z.eqb_spec c 43); destruct (Z.leb_spec r 0); cbn [snd_ sent]; lia.
@@ -179,7 +179,7 @@ Proof.
       by (intros x; unfold deliveries; rewrite flat_map_app; fold deliveries; now rewrite I2).
     assert (R : forall x, replies (snd (rx_feed cf DIdle rl0) ++ [x]) = ro0 ++ replies [x])
       by (intros x; unfold replies; rewrite flat_map_app; fold replies; now rewrite I3).
-    destruct e; try destruct q0; cbn; rewrite E; cbn [fst snd]; rewrite D, R; cbn;
+    destruct e; try (destruct q0; [destruct (full_fix cf)|]); cbn; rewrite E; cbn [fst snd]; rewrite D, R; cbn;
       rewrite ?app_nil_r; auto.
   - destruct sn0 as [|wire r f]; [cbn; auto|]. destruct q0 as [c|]; [|cbn; auto].
     destruct (snd_get cf r f c) as [o|[r' f']]; cbn; auto.
